@@ -530,6 +530,7 @@ func runC06(c *core.Ctx) error {
 	}
 	c06Large(c, reg)
 	c06Extended(c, reg)
+	c06HostileLinks(c, reg)
 	return c06Store(c, reg)
 }
 
@@ -640,6 +641,75 @@ func c06Extended(c *core.Ctx, reg multicodec.Registry) {
 						}
 					}
 				}
+			}
+		}
+	}
+}
+
+// c06HostileLinks: links as untrusted data may carry them - a multihash that declares a digest LONGER (or shorter) than
+// its hash function produces, an identity multihash longer or shorter than what the source answers with - loaded from a
+// source that answers every request: no load returns data (nothing hashes to such a link), and none panics.
+func c06HostileLinks(c *core.Ctx, reg multicodec.Registry) {
+	r := c.Rand.Fork()
+	for i := 0; i < c.Pick(120, 8000); i++ {
+		code := []uint64{mh.SHA2_256, mh.SHA2_512, mh.SHA1, mh.MD5, mh.IDENTITY, mh.SHA2_256}[r.Intn(6)]
+		content := r.Bytes(r.Intn(80))
+		honest, _ := mh.Sum(content, code, -1)
+		dm, _ := mh.Decode(honest)
+		var digest []byte
+		which := r.Intn(4)
+		if code == mh.IDENTITY && len(content) > 1 && r.Bool() {
+			which = 4
+		}
+		switch which {
+		case 4:
+			// an identity link that carries a proper PREFIX of what the source answers with: the content is not the
+			// link's content, however the comparison truncates
+			digest = append([]byte{}, content[:r.Intn(len(content))]...)
+		case 0:
+			digest = append(append([]byte{}, dm.Digest...), r.Bytes(1+r.Intn(40))...) // longer than the function yields
+		case 1:
+			digest = append(append([]byte{}, dm.Digest...), 0)
+		case 2:
+			digest = r.Bytes(len(dm.Digest) + 1 + r.Intn(100))
+		default:
+			if len(dm.Digest) > 1 {
+				digest = append([]byte{}, dm.Digest[:len(dm.Digest)-1]...)
+				digest[0] ^= 1 // a proper truncation of a DIFFERENT hash
+			} else {
+				digest = []byte{1, 2, 3}
+			}
+		}
+		enc, err := mh.Encode(digest, code)
+		if err != nil {
+			continue
+		}
+		codecCode := []uint64{0x55, 0x71, 0x0129}[r.Intn(3)]
+		lnk := cidlink.Link{Cid: cid.NewCidV1(codecCode, enc)}
+		lsys := cidlink.LinkSystemUsingMulticodecRegistry(reg)
+		lsys.StorageReadOpener = func(linking.LinkContext, datamodel.Link) (io.Reader, error) { return bytes.NewReader(content), nil }
+		for _, fn := range []string{"Load", "Fill", "LoadRaw", "LoadPlusRaw"} {
+			var err error
+			_, panicked, pv := core.Catch(func() error {
+				switch fn {
+				case "Load":
+					_, err = lsys.Load(linking.LinkContext{}, lnk, basicnode.Prototype.Any)
+				case "Fill":
+					err = lsys.Fill(linking.LinkContext{}, lnk, basicnode.Prototype.Any.NewBuilder())
+				case "LoadRaw":
+					_, err = lsys.LoadRaw(linking.LinkContext{}, lnk)
+				default:
+					_, _, err = lsys.LoadPlusRaw(linking.LinkContext{}, lnk, basicnode.Prototype.Any)
+				}
+				return nil
+			})
+			caseID := fmt.Sprintf("c06.hostile-link %s mh=0x%x declared-digest=%d function-yields=%d codec=0x%x content=%x", fn, code, len(digest), len(dm.Digest), codecCode, content)
+			c.Count(caseID, true)
+			c.Dist("hostile-link:" + fn)
+			if panicked {
+				c.Fail("C06/panic", core.Replay{Kind: "oracle", Case: caseID, Impl: fmt.Sprint(pv), Expected: "hash mismatch"})
+			} else if err == nil {
+				c.Fail("C06/ok-without-hash-match", core.Replay{Kind: "oracle", Case: caseID, Impl: "loaded", Expected: "hash mismatch"})
 			}
 		}
 	}
